@@ -49,11 +49,13 @@ def all_harnesses():
                         needs = range(1, cap + 2) if dec == "wait" else (1,)
                         for need in needs:
                             core = cap == 2 and init == 2 and m == 1 and need == 1 and pre in (0, 2)
-                            hs.append(Harness(f"c04_w_{dec}_c{cap}_i{init}_n{need}_m{m}_p{pre}",
-                                              f"crate::c04::writer_decision({cap}, {cap - 1}, {init}, {need}, {m}, {D[dec]}, {pre})",
-                                              unwind=cap + 4, unit=UNIT[("w", dec)], timeout=900,
-                                              shape={"side": "writer", "decision": dec, "cap": cap, "initial": init, "need": need,
-                                                     "peer_consume": m, "peer_pre_step": pre}, core=core))
+                            h = Harness(f"c04_w_{dec}_c{cap}_i{init}_n{need}_m{m}_p{pre}",
+                                        f"crate::c04::writer_decision({cap}, {cap - 1}, {init}, {need}, {m}, {D[dec]}, {pre})",
+                                        unwind=cap + 4, unit=UNIT[("w", dec)], timeout=900,
+                                        shape={"side": "writer", "decision": dec, "cap": cap, "initial": init, "need": need,
+                                               "peer_consume": m, "peer_pre_step": pre}, core=core)
+                            h.foldable = False  # a peer consume inside one query already needs ~5 GB
+                            hs.append(h)
     for init in (0, 1, 2):
         for push in (False, True):
             for pre in (0, 1, 2):
